@@ -564,7 +564,7 @@ def unary_stack(rnd):
     denominator, subtrahend, factor, addend, exponent base, or folded constant pair (seed C01-D hid behind x / -(-y))."""
     def negs(t):
         for _ in range(rnd.choice([1, 2, 2, 3])):
-            t = (rnd.choice(["neg", "neg", "neg", "sgn"]), t)
+            t = (rnd.choice(["neg", "neg", "neg", "sgn", "abs"]), t)
         return t
     a, b = rtree(rnd, rnd.randint(0, 1)), rtree(rnd, rnd.randint(0, 1))
     c1, c2 = rnd.choice(CONSTS), rnd.choice(CONSTS)
@@ -666,7 +666,7 @@ def embed(rnd, t, depth=None):
     """random surrounding context: under every parent kind and side, inside each side of an equation, at the root."""
     depth = rnd.randint(0, 3) if depth is None else depth
     for _ in range(depth):
-        k = rnd.choice(["add", "add", "sub", "mul", "mul", "div", "pow", "neg", "sgn"])
+        k = rnd.choice(["add", "add", "sub", "mul", "mul", "div", "pow", "neg", "sgn", "abs"])
         if k in UN:
             t = (k, t)
         elif rnd.random() < 0.5:
